@@ -13,6 +13,11 @@ The model does not predict *which* free address is chosen; for every operation i
 *class* (`Expect`): success with an address out of a set, or a set of acceptable errno values.  `judge()` compares an
 observed outcome with it and returns a list of (signature, text) complaints.  After a complaint the caller may
 `taint()` the addresses / names involved: the model makes no further prediction about them.
+
+Closing a socket that is already closed (`closed_again`) is a no-op on the table: whatever the API call does
+(return or raise nfc.llcp.Error), no address and no name changes hands; `view()` gives a comparable snapshot.
+Name lookups are a pure function of the table (`lookup_allowed`): the answer to one request never depends on
+other requests that travel with it in the same SNL PDU (`lookup_batch`).
 """
 import errno
 import re
@@ -261,6 +266,33 @@ class AddrModel(object):
             del self.names[s.name]
             self.ghost[s.name] = s.addr
         return freed
+
+    def closed_again(self, sid):
+        """close() on an already closed socket: the table is unaffected (whoever holds its old address now keeps
+        it, names stay registered).  Returns how the old address is held now (workload classification only):
+        'unbound' | 'free' | 'beside-listener' (its listening socket / sibling connections are still there) |
+        'reused' (sockets that have nothing to do with the closed one)."""
+        s = self.sock[sid]
+        if s.open:
+            raise ValueError("closed_again() on an open socket")
+        if s.addr is None:
+            return "unbound"
+        holders = self.at.get(s.addr, ())
+        if not holders:
+            return "free"
+        fam = s.parent if s.parent is not None else sid
+        if all((self.sock[x].parent if self.sock[x].parent is not None else x) == fam for x in holders):
+            return "beside-listener"
+        return "reused"
+
+    def view(self):
+        """comparable snapshot of the table: (address -> holders, name -> address)"""
+        return (tuple(sorted((a, tuple(sorted(map(str, h)))) for a, h in self.at.items() if h)),
+                tuple(sorted((n, self.sock[x].addr) for n, x in self.names.items())))
+
+    def lookup_batch(self, names):
+        """allowed answers for several requests carried in one SNL PDU: each one on its own"""
+        return [self.lookup_allowed(n) for n in names]
 
     def taint(self, addr=None, name=None):
         if addr is not None:
